@@ -5,17 +5,27 @@
    Dyadic p and q (plus 1/10, 1/20 for families of at most 4) keep every threshold comparison exact in binary floating
    point or far away from equality, so the code's f64 verdicts must equal the rational ones.                        *)
 EXTENDS RankStats, TLC, Json
-CONSTANTS MaxLen
+CONSTANTS MaxLen, MaxTie
 VARIABLE c
 
 Grid == { <<0, 1>>, <<1, 16>>, <<1, 8>>, <<3, 16>>, <<1, 4>>, <<3, 8>>, <<1, 2>>, <<3, 4>>, <<1, 1>> }
 Qs == { <<1, 1>>, <<1, 2>>, <<1, 4>>, <<1, 10>>, <<1, 20>> }
 
-Init == \E k \in 0..MaxLen :
-          \E ps \in [1..k -> Grid] :
-            \E q \in Qs :
-              \E m \in (IF k > 0 THEN k - 1 ELSE 0)..(k + 3) :
-                c = [p |-> ps, q |-> q, m |-> m]
+Pow2(j) == IF j = 0 THEN 1 ELSE IF j = 1 THEN 2 ELSE 4
+\* Families that sit EXACTLY on the step-up threshold: n equal p-values  p = q / 2^j  in a family of size m = n * 2^j, so
+\* p_(n) = (n/m) q holds with equality (and every p is rejected) for arbitrary, non-dyadic q. In binary floating point
+\* n/m = 2^-j and its product with q are exact, so the f64 verdict of (k/m)*q must equal the rational one; a threshold
+\* assembled in another order (k * (q/m)) rounds differently and drops or adds rejections for some n.
+QsTie == { <<1, 20>>, <<1, 10>>, <<1, 100>>, <<3, 100>>, <<1, 5>>, <<1, 4>>, <<1, 1000>>, <<7, 100>> }
+Ties == { [p |-> [i \in 1..n |-> <<q[1], q[2] * Pow2(j)>>], q |-> q, m |-> n * Pow2(j)] :
+            n \in 1..MaxTie, q \in QsTie, j \in 0..2 }
+
+Init == \/ \E k \in 0..MaxLen :
+             \E ps \in [1..k -> Grid] :
+               \E q \in Qs :
+                 \E m \in (IF k > 0 THEN k - 1 ELSE 0)..(k + 3) :
+                   c = [p |-> ps, q |-> q, m |-> m]
+        \/ c \in Ties
 Next == UNCHANGED c
 
 CountK(ps, q, m) ==
@@ -28,6 +38,8 @@ Laws ==
         /\ Cardinality({ i \in 1..Len(c.p) : BHKeep(c.p, c.q, c.m)[i] }) = BHMaxRank(c.p, c.q, c.m)
         \* a larger family never rejects more
         /\ \A i \in 1..Len(c.p) : BHKeep(c.p, c.q, c.m + 1)[i] => BHKeep(c.p, c.q, c.m)[i]
+        \* on-threshold ties are rejected entirely
+        /\ c \in Ties => \A i \in 1..Len(c.p) : BHKeep(c.p, c.q, c.m)[i]
 
 GenCase ==
     PrintT(<<"BCASE", ToJson([p |-> c.p, q |-> c.q, m |-> c.m,
